@@ -301,5 +301,23 @@ func c08(r *mon.Run) {
 				t.NontrivialDistinct(1)
 			}
 		}}
-	r.Exec(main, nonArr, two)
+	// a step of 0 applied to an array is an error wherever the slice stands: every single-hole context of the
+	// grammar (operator sides, projections, function arguments, expression-reference bodies, multi-selects) x
+	// 8 spellings of a zero-step slice; on a non-array the same slice is null in every context
+	zs := [][3]string{{"", "", "0"}, {"1", "", "0"}, {"", "1", "0"}, {"0", "2", "0"}, {"-1", "", "-0"}, {"5", "", "0"}, {"2", "2", "0"}, {"", "", "00"}}
+	zctx := c11Contexts()
+	zdoc := docs.J(`{"a":1,"arr":[1,2,3],"str":"abc","o":{"p":{"a":1},"q":{"a":2}},"x":[{"a":1,"arr":[1,2]},{"a":2,"arr":[3]}]}`)
+	zero := mon.Workload{Name: "zero-step-in-every-context", N: len(zctx) * len(zs) * 3,
+		Do: func(i int, t *mon.Tally) {
+			z := zs[i/3%len(zs)]
+			operand := []*gen.Expr{gen.Field("arr"), gen.Field("str"), gen.LitJSON("[1,2]")}[i%3]
+			tree := zctx[i/3/len(zs)].f(gen.Chain(operand, gen.StSliceS(z[0], z[1], z[2])))
+			cx := &caseCtx{r, t, "zero-step-in-every-context", i}
+			res, _, _ := cx.runBoth(tree, gen.Spell(tree), zdoc)
+			if isErr(res) {
+				t.Count("zero step on an array inside a context: error expected")
+				t.Nontrivial("zero:" + strconv.Itoa(i))
+			}
+		}}
+	r.Exec(main, nonArr, two, zero)
 }
